@@ -129,13 +129,15 @@ ezc3d::DataNS::Frame &ezc3d::DataNS::Data::frame_nonConst(size_t idx)
 
 void ezc3d::DataNS::Data::frame(const ezc3d::DataNS::Frame &frame, size_t idx)
 {
+    // The frame is cloned first: the stored frame never shares its points and analogs with the
+    // caller's frame, and the argument may itself be an element of _frames (which resizing moves)
+    ezc3d::DataNS::Frame clone;
+    clone.add(frame);
     if (idx == SIZE_MAX)
-        _frames.push_back(frame);
-    else {
-        if (idx >= _frames.size())
-            _frames.resize(idx+1);
-        _frames[idx].add(frame);
-    }
+        idx = _frames.size();
+    if (idx >= _frames.size())
+        _frames.resize(idx+1);
+    _frames[idx] = clone;
 }
 
 const std::vector<ezc3d::DataNS::Frame> &ezc3d::DataNS::Data::frames() const
